@@ -74,7 +74,8 @@ def quick_solver(timeout_ms=2000):
     return s
 
 
-FEAS_MS = 400
+import os as _os
+FEAS_MS = int(_os.environ.get("PYVC_FEAS_MS", "400"))  # per path-feasibility query; unknown counts as feasible
 
 
 def feasible(pc, extra=None, timeout_ms=None):
@@ -85,7 +86,22 @@ def feasible(pc, extra=None, timeout_ms=None):
         s.add(t)
     if extra is not None:
         s.add(extra)
-    return s.check() != z3.unsat
+    import time as _t
+    w0, c0 = _t.time(), _t.process_time()
+    r = s.check()
+    if r == z3.unknown:
+        # An unanswered query counts as 'feasible' (sound: more paths explored), but a path that is really infeasible can make a unit
+        # leave the modelled subset.  The budget is wall-clock; if this process got markedly less CPU than wall time (machine under
+        # load), the query is asked again with the budget scaled up accordingly, so that verdicts do not depend on the load.
+        wall, cpu = _t.time() - w0, _t.process_time() - c0
+        if cpu < 0.7 * wall:
+            UNKNOWN_STATS["retried"] += 1
+            s.set("timeout", int(min(8.0, max(2.0, wall / max(cpu, 1e-3))) * timeout_ms))
+            r = s.check()
+    return r != z3.unsat
+
+
+UNKNOWN_STATS = {"retried": 0, "still_unknown": 0}
 
 
 def entails(pc, goal, timeout_ms=2000):
